@@ -2,6 +2,6 @@ SPECIFICATION Spec
 CONSTANTS
   MaxLen = 4
   TamperTopos = {1}
-INVARIANTS Honest SegIDInSync NoDeliveryAfterTamper
+INVARIANTS Honest SegIDInSync NoDeliveryAfterTamper AnswersComeBack
 PROPERTIES Frame
 CHECK_DEADLOCK FALSE
